@@ -96,20 +96,37 @@ type execCtx struct {
 }
 
 var (
-	ctxPool = sync.Pool{New: func() any {
+	// free list of execution contexts (never released: a sync.Pool would drop the 4 MiB buffers at every GC
+	// cycle and re-fault them, which dominated the run time)
+	ctxFree = make(chan *execCtx, 256)
+	ssOnce  sync.Once
+	ss      *ledgerstore.StateStore
+)
+
+func getCtx() *execCtx {
+	select {
+	case c := <-ctxFree:
+		return c
+	default:
 		s := &mapStore{}
 		return &execCtx{store: s, overlay: overlaydb.NewOverlayDB(s)}
-	}}
-	ssOnce sync.Once
-	ss     *ledgerstore.StateStore
-)
+	}
+}
+
+func putCtx(c *execCtx) {
+	c.store.m = nil
+	select {
+	case ctxFree <- c:
+	default:
+	}
+}
 
 // Exec runs tx through StateStore.HandleInvokeTransaction as a one-transaction block and applies the
 // write set on success (same contract as polyenv.World.Exec).
 func (w *World) Exec(tx *types.Transaction, height, timestamp uint32) (res polyenv.Result) {
 	ssOnce.Do(func() { ss = ledgerstore.NewMemStateStore(0) })
-	c := ctxPool.Get().(*execCtx)
-	defer ctxPool.Put(c)
+	c := getCtx()
+	defer putCtx(c)
 	c.store.m = w.m
 	c.overlay.Reset()
 	c.overlay.SetError(nil)
@@ -144,7 +161,6 @@ func (w *World) Exec(tx *types.Transaction, height, timestamp uint32) (res polye
 			w.m[kv.K] = kv.V
 		}
 	}
-	c.store.m = nil
 	return
 }
 
